@@ -58,6 +58,9 @@ FAMILIES: Dict[str, Tuple[str, List[str]]] = {
     # a symbol that derives only the empty string, at the head of a production
     "epsonly": ("S: B ?0 | ?1 ; B: A ?2 ?3 ; A: -", ["x", "y", "z", "A", "B"]),
     # a symbol that is nullable only through its production (no empty alternative of its own), in front of a recursion
+    # a symbol nested inside its own production with something after it (centre recursion): FOLLOW of the symbol must contain
+    # what follows the nested occurrence
+    "selfnest": ("S: ?0 S ?1 | ?2 A ; A: ?3 | -", ["x", "y", "z", "-"]),
     "derivnull": ("S: B ?0 | z ; B: C ?1 x | ?2 ; C: A D ; A: x | - ; D: ?3 | -", ["x", "y", "B", "-"]),
 }
 
